@@ -5,7 +5,11 @@
 // (B) call-site forms (function body, package-level var, closure, nested derive call, _test
 //     file, curried form) over a sample of types;
 // (C) the functional plugins in their documented signature forms over several element types;
-// (D) imported types from two packages with the same name, unexported fields.
+// (D) imported types from two packages with the same name, unexported fields;
+// (F) sibling types (siblings.go): two named types with one underlying type, and that type written out,
+//     used by different calls of one package - helpers are looked up by assignability;
+// (G) directory layouts (layouts.go): external test packages beside the package, in-package test files,
+//     sub-packages importing each other, `./...` and explicit package lists.
 package c01
 
 import (
@@ -61,6 +65,20 @@ func Run(cfg hx.Config) (*hx.Meta, error) {
 	hx2 := ga.Named(37, "HY", 2, ga.StP([]bool{false, true, true}, ga.B("int"), cat.E4, ga.Sl(cat.E2)))
 	types = ga.Dedup(append(types, lp, ga.P(lp), lp2, ga.P(lp2), ga.Sl(lp), hx1, ga.P(hx1), ga.Sl(hx1), hx2, ga.P(hx2), ga.M(ga.B("string"), hx1)))
 	var obs strings.Builder
+	// VERIF_C01_ONLY=siblings,layouts (development aid): run only the named direct batteries
+	if only := os.Getenv("VERIF_C01_ONLY"); only != "" {
+		for _, sec := range strings.Split(only, ",") {
+			switch sec {
+			case "siblings":
+				siblings(cfg, meta)
+			case "layouts":
+				layouts(cfg, meta)
+			case "callsites":
+				callsites(cfg, meta, cat, r)
+			}
+		}
+		return meta, nil
+	}
 	for gi, g := range groups {
 		probes := ga.Probe(cfg.Goderive, filepath.Join(cfg.Work, fmt.Sprintf("probe-%s", g.name)), types, g.calls, true)
 		for i, t := range types {
@@ -91,6 +109,8 @@ func Run(cfg hx.Config) (*hx.Meta, error) {
 
 	callsites(cfg, meta, cat, r)
 	functional(cfg, meta, cat)
+	siblings(cfg, meta)
+	layouts(cfg, meta)
 	if err := inproc(cfg, meta, r); err != nil {
 		return nil, err
 	}
